@@ -158,13 +158,22 @@ class Processor:
                     str(yaml_path)
                 )
         else:
-            for opt_node in self._get_optional_nodes(
-                self.data, yaml_path, default_value
-            ):
-                self.logger.debug(
-                    "Relaying optional node:",
-                    prefix="Processor::get_nodes:  ", data=opt_node)
-                yield opt_node
+            try:
+                for opt_node in self._get_optional_nodes(
+                    self.data, yaml_path, default_value
+                ):
+                    self.logger.debug(
+                        "Relaying optional node:",
+                        prefix="Processor::get_nodes:  ", data=opt_node)
+                    yield opt_node
+            except RuntimeError as wrap_ex:
+                # A path which returns to a Hash or Set it is still walking
+                # (via parent(), **, ...) and then names a missing child would
+                # have to grow that container mid-iteration; Python refuses.
+                raise YAMLPathException(
+                    "Cannot create missing nodes within data that is still"
+                    " being searched ({})".format(wrap_ex),
+                    str(yaml_path)) from wrap_ex
 
     def set_value(
         self, yaml_path: Union[YAMLPath, str], value: Any, **kwargs
@@ -232,9 +241,16 @@ class Processor:
                 "Processor::set_value:  Seeking optional node at {}."
                 .format(yaml_path)
             )
-            for node_coord in list(self._get_optional_nodes(
-                self.data, yaml_path, value
-            )):
+            try:
+                optional_nodes = list(self._get_optional_nodes(
+                    self.data, yaml_path, value))
+            except RuntimeError as wrap_ex:
+                raise YAMLPathException(
+                    "Cannot create missing nodes within data that is still"
+                    " being searched ({})".format(wrap_ex),
+                    str(yaml_path)) from wrap_ex
+
+            for node_coord in optional_nodes:
                 self._apply_change(yaml_path, node_coord, value,
                     value_format=value_format, tag=tag)
 
